@@ -100,4 +100,18 @@ def obligations(tier, seed=0):
     # directed-rounding consistency of the special-value branches interval atan2/arg/log rely on (y = -inf must mirror the mode)
     from checks.c13 import pi_special_grid
     obs += pi_special_grid('fc')
+    # directed rounding of the kernels behind iv.exp / iv.log / iv.atan where the exact value is a representable point plus or
+    # minus an infinitesimal (the perturbation shortcuts and the boundary to the series path)
+    FE = 'checks.fam_elem:'
+    for rnd in 'fcdu':
+        for sign in (0, 1):
+            for prec in (5, 24):
+                for k in (-2, -1, 0, 1):
+                    obs.append((FE + 'exp_near_one', dict(prec=prec, k=k, bc=3, sign=sign, rnd=rnd)))
+                obs.append((FE + 'exp_near_one', dict(prec=prec, k=0, bc=1, sign=sign, rnd=rnd)))
+            for fn in ('exp', 'atan', 'sin', 'cos', 'tan'):
+                obs.append((FE + 'near_point', dict(fn=fn, prec=6, rnd=rnd, sign=sign, bc=3)))
+                obs.append((FE + 'near_point', dict(fn=fn, prec=4, rnd=rnd, sign=sign, bc=7)))      # argument longer than prec
+            obs.append((FE + 'near_point', dict(fn='log1', prec=6, rnd=rnd, sign=sign, bc=3, k=40)))
+            obs.append((FE + 'near_point', dict(fn='log1', prec=4, rnd=rnd, sign=sign, bc=7, k=45)))
     return obs
